@@ -65,6 +65,29 @@ theorem witness_root_eq (vtx : List Tx) (hr : ∀ t ∈ vtx, TxRange t) :
     simp [calcWitnessMerkleRoot, hlen, hnone hany]
   · intro h; subst h; simp [calcWitnessMerkleRoot]
 
+/-- the known malleability of the consensus algorithm (CVE-2012-2459): because a last unpaired node is
+    paired with itself, a list of odd length > 1 and the same list with its last hash repeated have the
+    same root — the Spec is Bitcoin's merkle tree, not an idealised one -/
+theorem merkle_mutation_cve (hs : List Bytes) (hne : hs ≠ []) (hodd : hs.length % 2 = 1) (h1 : 1 < hs.length) :
+    Spec.Merkle.root (hs ++ [hs.getLast hne]) = Spec.Merkle.root hs := by
+  have key : ∀ (l : List Bytes) (x : Bytes), (l ++ [x]).length % 2 = 1 →
+      Spec.Merkle.pairUp (l ++ [x] ++ [x]) = Spec.Merkle.pairUp (l ++ [x]) := by
+    intro l
+    induction l using Spec.Merkle.pairUp.induct with
+    | case1 => intro x _; simp [Spec.Merkle.pairUp]
+    | case2 a => intro x h; simp at h
+    | case3 a b rest ih =>
+      intro x h
+      have h' : (rest ++ [x]).length % 2 = 1 := by simp at h ⊢; omega
+      simp only [List.cons_append, Spec.Merkle.pairUp]
+      rw [← ih x h']
+  obtain ⟨l, hl⟩ : ∃ l, hs = l ++ [hs.getLast hne] := ⟨hs.dropLast, (List.dropLast_concat_getLast hne).symm⟩
+  have hp : Spec.Merkle.pairUp (hs ++ [hs.getLast hne]) = Spec.Merkle.pairUp hs := by
+    have := key l (hs.getLast hne) (by rw [← hl]; exact hodd)
+    rw [← hl] at this; exact this
+  rw [MerkleProofs.root_pairUp (hs ++ [hs.getLast hne]) (by simp; omega),
+    MerkleProofs.root_pairUp hs (by omega), hp]
+
 /-- every digest is 32 bytes long (a fact about SHA-256 that the theorems below take as an explicit
     hypothesis, because `hash256` is never unfolded) -/
 def HashLen : Prop := ∀ x : Bytes, (hash256 x).length = 32
